@@ -29,11 +29,11 @@ PIECES = [
     "#K:a\\:b;",
     "#straße:\x85 x\u2028;",
     "#NOTES:a:b:c:d:e:f;",
-    "#NOTES: a :b:c:d:e: f :g:h;",
+    "#NOTES: a\nx :b\ny:c:d:e: f :g:h;",  # step type and description that span two lines
     "#NOTES:\u3000a\xa0:b\x1c:c:\x85d:e:\u2028f\x0b:\u3000g;",
     "#NOTES:a:b;",
     "#NOTEDATA:;",
-    "#STEPSTYPE:x;",
+    "#STEPSTYPE:x\ny;",
     "#NOTES:0000;",
     "#NOTES;",
     "#ARTIST:e\u0301\u2126\u037e x;",
